@@ -284,3 +284,106 @@ def zero_division(ctx):
             else:
                 ctx.violation(c, f"{qual} raises ZeroDivisionError; the statement allows it only for operands without an "
                                  f"inverse ({sorted(ZERO_DIV_SITES)})", r, module=mname)
+
+
+@rule("C07.power-supply", props=["C07", "C17"], min_instances=3, mutants=[
+    ("addition chain combines the wrong predecessors", ("codegen", "            powers[step] = operation(powers[chain[-2]], powers[step - chain[-2]])", "            powers[step] = operation(powers[chain[-2]], powers[chain[-2]])")),
+    ("power table seeded with the square", ("codegen", "    powers = {1: x}\n    for step in exponents:", "    powers = {1: operation(x, x)}\n    for step in exponents:")),
+])
+def power_supply(ctx):
+    """power_supply(x, n) ends in x^n and power_supply(x, (1..n)) yields x^1 .. x^n in order, through addition
+    chains (words of the free monoid; the operation is the repository's own product on operator trees)."""
+    from ..astx import NoValue as _NV
+    repo = ctx.repo
+    q = "codegen.power_supply"
+    fn = ctx.func(q)
+    x = T.var("x")
+
+    def word(n):
+        t = x
+        for _ in range(n - 1):
+            t = t.gp(x)
+        return t
+    bad = []
+    for n in range(1, 25):
+        it = tree_interp(repo, 3)
+        it.plain_classes["AdditionChains"] = "codegen.AdditionChains"
+        try:
+            out = it.run(q, [x, n])
+        except _NV as exc:
+            raise Unknown(f"{q}#single", str(exc), fn)
+        if out[0] == "raise" or not isinstance(out[1], list) or not out[1] or out[1][-1] != word(n):
+            bad.append((n, out[1][-1] if out[0] == "return" and out[1] else out))
+    if bad:
+        ctx.violation(f"{q}#single", f"power_supply(x, n) does not end in x^n for n = {[b[0] for b in bad][:6]} (e.g. n = {bad[0][0]}: "
+                                     f"{bad[0][1]!r})", fn)
+    else:
+        ctx.ok(f"{q}#single", fn, exponents="1..24")
+    for n in (4, 8, 11):
+        c = f"{q}#sequence(1..{n})"
+        it = tree_interp(repo, 3)
+        try:
+            out = it.run(q, [x, tuple(range(1, n + 1))])
+        except _NV as exc:
+            raise Unknown(c, str(exc), fn)
+        want = [word(k) for k in range(1, n + 1)]
+        if out[0] == "return" and list(out[1]) == want:
+            ctx.ok(c, fn)
+        else:
+            got = [repr(v) for v in out[1]] if out[0] == "return" else out
+            ctx.violation(c, f"power_supply(x, (1, .., {n})) yields {got}, expected x^1 .. x^{n} in order: the iterative "
+                             f"inverse subtracts the wrong powers", fn)
+
+
+@rule("C07.lambdify-input", props=["C07"], min_instances=3, mutants=[
+    ("inverse multiplies the numerator by the denominator", ("codegen", "    denom_inv = alg.scalar([1 / denom])\n    yinv = num * d.e", "    denom_inv = alg.scalar([denom])\n    yinv = num * d.e")),
+    ("division lists its arguments as (y, x)", ("codegen", "    args = {'x': x.values(), 'y': y.values()}", "    args = {'y': y.values(), 'x': x.values()}")),
+    ("division precomputes with the numerator's scalar", ("codegen", "    dependencies = list(zip(d.values(), denom_inv.values()))\n    return LambdifyInput(\n        funcname=f'div_", "    dependencies = list(zip(d.values(), alg.scalar([1 / num.e]).values()))\n    return LambdifyInput(\n        funcname=f'div_")),
+])
+def lambdify_input(ctx):
+    """codegen_inv / codegen_div hand lambdify NUM * d with the single dependency d = 1/denominator of the same
+    (numerator, denominator) pair, and list their operands in order."""
+    from ..astx import NoValue as _NV
+    repo = ctx.repo
+    x, y = T.var("x"), T.var("y")
+    for q, args, names in (("codegen.codegen_inv", [y], ["y"]), ("codegen.codegen_div", [x, y], ["x", "y"])):
+        fn = ctx.func(q)
+        for d in (2, 3):
+            c = f"{q}#lambdify-input,d={d}"
+            it = tree_interp(repo, d, extra_attrs={"div": Obj("OperatorDict", {"codegen_symbolcls": Obj("symbolcls", {"fmt": "SYMBOLCLS"})})})
+            it.t_truth = lambda t: bool(t.terms)
+            ref = tree_interp(repo, d)
+            try:
+                out = it.run(q, list(args))
+                pair = ref.run("codegen.codegen_inv", [y] + ([x] if len(args) == 2 else []), {"symbolic": True})
+            except _NV as exc:
+                raise Unknown(c, str(exc), fn)
+            res = out[1] if out[0] == "return" else None
+            if not (isinstance(res, Obj) and res.kind == "LambdifyInput") or pair[0] != "return":
+                raise Unknown(c, f"returns {out!r}", fn)
+            num, denom = pair[1]
+            dsym = T.scalar(("sym", "d"))
+            problems = []
+            ed = res.attrs.get("expr_dict")
+            got = list(ed.values())[0].attrs.get("of") if isinstance(ed, dict) and len(ed) == 1 and isinstance(list(ed.values())[0], Obj) else None
+            if got != num.gp(dsym):
+                problems.append(f"the emitted expression is [{got!r}], expected NUM * d = [{num.gp(dsym)!r}]")
+            deps = res.attrs.get("dependencies")
+            want_dep = T.opaque("recip", (denom,)) if False else None
+            try:
+                (lhs, rhs), = deps
+            except Exception:
+                lhs = rhs = None
+                problems.append(f"dependencies {deps!r}, expected exactly one (d, 1/denominator)")
+            if lhs is not None:
+                if lhs != dsym:
+                    problems.append(f"the precomputed symbol is {lhs!r}, expected d")
+                if not (isinstance(rhs, Obj) and rhs.kind == "reciprocal" and rhs.attrs.get("of") == denom):
+                    problems.append(f"d is bound to {rhs!r}, expected 1 / <x . num>_0 of the same numerator")
+            a = res.attrs.get("args")
+            if not (isinstance(a, dict) and list(a.keys()) == names):
+                problems.append(f"arguments are listed as {list(a.keys()) if isinstance(a, dict) else a}, expected {names}")
+            if problems:
+                ctx.violation(c, "; ".join(problems), fn)
+            else:
+                ctx.ok(c, fn)
